@@ -699,7 +699,10 @@ class DefaultCodec(Codec):
             # If this is an InMemoryPartition, remember the output keys so they can be
             # referred to when merging partitions in the future
             if hasattr(obj, "_output_keys") and hasattr(obj, "_parent_data_source"):
-                obj._output_keys = output_keys
+                # Remember the complete index, including the keys inherited from this
+                # partition's own merge parent, so that they are not lost when this
+                # partition in turn serves as a merge parent.
+                obj._output_keys = index
                 obj._parent_data_source = data_source
 
             # noinspection PyProtectedMember
